@@ -86,11 +86,14 @@ theorem c15_append_call_only_pinned (s : Store) (fsHas : Nat → Bool) (es : Lis
 
 /-- The same with "the first entry of the batch is accepted by the state" as
 the condition (the open chunk has a record, as in every reachable store;
-otherwise the call panics before touching anything). -/
+otherwise the call panics before touching anything). D12: the first entry's
+index must not be u64::MAX (`hidx`) — such an entry is refused with
+`InvalidInput` before the state sees it, and nothing is inserted. -/
 theorem c15_append_call_first_accepted_only_pinned (s : Store) (fsHas : Nat → Bool) (id : LogId)
     (p : Bytes) (rest : List (LogId × Bytes)) (st' : RState) (hinv : CacheInv s)
     (hseg : lastSegment s.openOffsets ≠ none)
     (hacc : s.st.apply (.append id p) = .ok st')
+    (hidx : id.index + 1 ≠ U64)
     (hover : (s.call fsHas (.append ((id, p) :: rest))).2.1.cache.items.length >
                (s.call fsHas (.append ((id, p) :: rest))).2.1.cache.maxItems ∨
              (s.call fsHas (.append ((id, p) :: rest))).2.1.cache.size >
@@ -102,7 +105,7 @@ theorem c15_append_call_first_accepted_only_pinned (s : Store) (fsHas : Nat → 
     simp only [Store.call]
     split
     · rename_i h; exact absurd h hseg
-    · exact appendBatch_first_acc_C15b fsHas id p rest s _ [] st' hinv hacc
+    · exact appendBatch_first_acc_C15b fsHas id p rest s _ [] st' hinv hacc hidx
   exact ⟨key.pinned hover, key.last_ne⟩
 
 /-- If the first entry is refused by the state (or the batch is empty) the
